@@ -18,7 +18,7 @@ func init() {
 		Explain: "Structural necessary conditions of C03 decided on /repo's SSA: (C03.1) every derivation of a user-file path Join(BaseDir,U) from a caller-supplied name is reachable, along all call paths from the exported store API, only under the fact userNameRe.MatchString(U)==true; (C03.2) every file-system primitive in package store takes a path of one of the confined shapes P_base / P_base/.tmp / temp file in it / P_base/<U>.user|.admin / directory-entry derived (read or stat only) / the configuration file (read only); (C03.3) Check and List count a directory entry only under valid==true; (C03.4) no file-system or exec primitive in cmd/whawty-auth takes an operand derived from request data. The regexp literal is compared with doc/SCHEMA.md.",
 		Undec: []string{"kernel path resolution (symlinks planted inside the base directory), NAME_MAX behaviour", "the system-call level view of a running process", "behaviour for each individual name string (only the guard structure is decided)"},
 		Run:   runC03,
-		Floors: map[string]int{"C03.2": 14, "C03.1": 4},
+		Floors: map[string]int{"C03.2": 7, "C03.1": 1},
 	})
 }
 
